@@ -3,7 +3,7 @@ from .. import core, eqv, values, stdvals, vtypes
 
 ID = 'C07'
 LEVEL = 'exploration'
-RULE = ('Exhaustive: a boundary corpus (every pytz zone of the pool x midnight / fold=1 datetimes and times, extreme dates and timedeltas, empty / bounded / degenerate instances of every container, every member and Flag combination, every exception class ...) x every placement x 2 (quick) / 4 (thorough) configurations; ' +
+RULE = ('(every reconstructed object is printed and evaluated once more) Exhaustive: a boundary corpus (every pytz zone of the pool x midnight / fold=1 datetimes and times, extreme dates and timedeltas, empty / bounded / degenerate instances of every container, every member and Flag combination, every exception class ...) x every placement x 2 (quick) / 4 (thorough) configurations; ' +
         'case = (instance recipe of a stdlib type with a bundled printer: datetime/date/time (naive, utc, fixed '
         'datetime.timezone with/without name and sub-minute offsets, pytz utc/named/localized/FixedOffset, fold), '
         'timedelta (0, +-1us, min, max, 365d multiples, random), timezone, OrderedDict, defaultdict, deque, Counter, '
@@ -276,4 +276,15 @@ def oracle(case):
     why = stdvals.std_equal(v, got, cmp)
     if why:
         return core.viol('not-equal', '%s\n%s' % (why, p.text[:600]), labels)
+    # the reconstructed object is an instance of the same types: it prints without a failing printer and evaluates again
+    # (a localized pytz tzinfo comes back as a zone-less DstTzInfo, which nothing else generates)
+    p2 = values.pp(back, **case['cfg'])
+    if p2.exc is not None:
+        return core.viol('pformat-raised', 'printing the reconstructed object: %r' % (p2.exc,), labels)
+    if p2.fallback_warnings():
+        return core.viol('printer-failed', 'printing the reconstructed object: ' + p2.fallback_warnings()[0][:500], labels)
+    try:
+        values.evaluate(p2.text, _env())
+    except Exception as e:
+        return core.viol('not-evaluable', 'second generation: %r\n%s' % (e, p2.text[:600]), labels)
     return core.ok(where != 'top' or not trivial_instance(r), labels)
